@@ -726,6 +726,9 @@ class Models:
             out = []
             for s in I.assume(st, flit(("b", (key, "size_ok"), True))):
                 s.pc.append(le(S, LEN_MAX_))
+                if d.trait != "RtcpPacketWriter":
+                    # FCI is a whole number of 32-bit words (RFC 4585 §6.1); checked for every FciBuilder impl
+                    s.pc.append(eq(Lin.atom(("mod", S.key(), 4)), 0))
                 out.append((s, "val", ok(IntV(S, "usize"))))
             for s in I.assume(st, flit(("b", (key, "size_ok"), False))):
                 out.append((s, "val", err(StructV("RtcpWriteError", "<error-of>", {"__by": d}))))
